@@ -29,5 +29,12 @@ for spec in "b1_1:C01 C02 C08" "b1_2:C01 C02 C08" "b1_3:C16 C01" "b1_4:C01 C05" 
   elif echo "$out" | grep -q "^INCONCLUSIVE"; then echo "benign2/$f [$props]: inconclusive"
   else echo "benign2/$f [$props]: quiet"; fi
 done
+for spec in "b3a_1:C01 C02" "b3a_2:C05" "b3a_3:C05" "b3a_4:C01 C02" "b3a_5:C01 C02" "b3a_6:C08" "b3b_1:C15" "b3b_2:C15" "b3b_3:C09" "b3b_4:C09" "b3b_5:C14" "b3b_6:C06"; do
+  f=${spec%%:*}; props=${spec#*:}
+  out=$(./seedrun.sh seeded/benign3/$f.diff $props 2>&1)
+  if echo "$out" | grep -q "^VIOLATION"; then echo "benign3/$f [$props]: FALSE ALARM"; fail=1
+  elif echo "$out" | grep -q "^INCONCLUSIVE"; then echo "benign3/$f [$props]: inconclusive"
+  else echo "benign3/$f [$props]: quiet"; fi
+done
 git checkout -q -- evidence 2>/dev/null
 exit $fail
